@@ -168,6 +168,7 @@ SetToSeq(S) == IF S = {} THEN <<>> ELSE LET m == CHOOSE x \in S : \A y \in S : x
    7..19  n <= 4: a dense seed-chosen vector
    20     weighted sum of the combs of all steps s | n (complex / real FFT and radix kinds) *)
 Sparse(kind, n, fam) ==
+    IF kind = "H.as" THEN <<>> ELSE
     LET fp == SetToSeq(FullPos(kind, n))
         L  == InLen(kind, n)
     IN CASE fam = 0 -> [j \in 1 .. Len(fp) |-> Elem(kind, n, fp[j], j)]
@@ -268,6 +269,34 @@ CombTheorem(kind, n) ==
         IN /\ FullyKnown(kind, n, sp)
            /\ \A k \in 0 .. OutLen(kind, n) - 1 : Out(kind, n, sp, k) = <<IF k % r = 0 THEN r ELSE 0, 0>>
 
+
+(***************************** analytic signal ******************************)
+(* transform.Hilbert.AnalyticSignal: z = IDFT(h .* DFT(x)) / n with h[0] = 1, h[k] = 2 for 0 < k < n/2,     *)
+(* h[n/2] = 1 (n even), h[k] = 0 above.  Exactly statable: (30) a constant c gives c + 0i everywhere (the   *)
+(* spectrum of a constant is n c at k = 0: comb theorem); (31) for ANY real x the real part is x - the       *)
+(* clause "the analytic signal has the input as its real part" - imaginary parts masked; (33) n in {1,2,4}:  *)
+(* both sums are computable for arbitrary data, the result is emitted as numerators over den = n.            *)
+HW(n, k) == IF k = 0 THEN 1 ELSE IF 2 * k < n THEN 2 ELSE IF 2 * k = n THEN 1 ELSE 0
+HData(n, fam) == [j \in 1 .. n |-> Val(n, j - 1, fam)]
+HilbertCase(n, fam) ==
+    LET x == IF fam = 30 THEN [j \in 1 .. n |-> Val(n, 0, 30)] ELSE HData(n, fam)
+        base == [k |-> "H.as", n |-> n, fam |-> fam, dir |-> "A", x |-> x, l1 |-> L1(x, 1, n),
+                 tolk |-> TolK("C.coef", n)]
+    IN CASE fam = 30 -> base @@ [want |-> [q \in 1 .. 2 * n |-> IF q % 2 = 1 THEN x[1] ELSE 0], mask |-> <<>>, den |-> 1]
+         [] fam = 31 -> base @@ [want |-> [q \in 1 .. 2 * n |-> IF q % 2 = 1 THEN x[(q + 1) \div 2] ELSE 0],
+                                 mask |-> [q \in 1 .. 2 * n |-> q % 2], den |-> 1]
+         [] OTHER ->   \* n in {1,2,4}: two computable sums
+              LET sp == [j \in 1 .. n |-> <<j - 1, x[j], 0>>]
+                  Y  == [j \in 1 .. n |-> LET X == Out("C.coef", n, sp, j - 1) IN
+                                           <<j - 1, HW(n, j - 1) * X[1], HW(n, j - 1) * X[2]>>]
+              IN base @@ [want |-> OutVec("C.seq", n, Y), mask |-> <<>>, den |-> n]
+HilbertOK(n, fam) == fam \in {30, 31} \/ (fam = 33 /\ n \in {1, 2, 4})
+\* for n in {1,2,4} the real-part clause and the constant case are theorems of the two sums
+HilbertTheorem ==
+    \A n \in {1, 2, 4} :
+       LET c == HilbertCase(n, 33) IN
+       \A j \in 1 .. n : c.want[2 * j - 1] = n * c.x[j]
+
 (****************************** state space *********************************)
 \* (the sparse vector of the case is part of the state so that it is evaluated once)
 Init == cs \in {[kind |-> c[1], n |-> c[2], fam |-> c[3], sp |-> Sparse(c[1], c[2], c[3])] :
@@ -280,7 +309,7 @@ HasCase == Len(SP) > 0 /\ \E i \in 0 .. OutLen(cs.kind, cs.n) - 1 : OutKnown(cs.
 
 \* FFT.seq of a Hermitian half spectrum is real by construction of Term; the complex kinds
 \* need no such side condition.  The tables are checked once (in the state n = NLo, fam = least).
-TablesOK == (cs.n = NLo /\ \A f \in Fams : cs.fam <= f) => (TrigTablesSound /\ LpfSound)
+TablesOK == (cs.n = NLo /\ \A f \in Fams : cs.fam <= f) => (TrigTablesSound /\ LpfSound /\ HilbertTheorem)
 
 \* position 0 is always fully known for the kinds whose sum has a constant term in k = 0
 ImpulseAlways == (cs.kind \in {"C.coef", "C.seq", "FFT.coef", "FFT.seq", "DCT.t", "QW.cosc", "R2.coef", "R2.seq", "R4.coef", "R4.seq"})
@@ -305,4 +334,5 @@ EmitCases ==
          /\ PrintT(ToJson(CaseA(cs.kind, cs.n, cs.fam, SP)))
          /\ FullyKnown(cs.kind, cs.n, SP) => PrintT(ToJson(CaseB(cs.kind, cs.n, cs.fam, SP)))
     /\ (Emit /\ cs.fam = 20 /\ cs.kind \in CombKinds /\ cs.n > 1) => PrintT(ToJson(CombCase(cs.kind, cs.n)))
+    /\ (Emit /\ cs.kind = "H.as" /\ HilbertOK(cs.n, cs.fam)) => PrintT(ToJson(HilbertCase(cs.n, cs.fam)))
 =============================================================================
